@@ -1,7 +1,77 @@
 import Hs.Model.Vx
+import Hs.Model.Dis
 namespace Hs.Drv.C20
+open Hs Hs.Vx Hs.Dis
 
-/-- requests `C20 <cmd> ...` (tokens after the property id) -/
-def handle (_ts : List String) : String := "bad-request"
+/-- `DV ::= s H(text) | r H(id) H(dis)|- H(to_string) | o H(to_string)` -/
+def pDVal : P DVal := fun ts => do
+  let (t, ts) ← tok ts
+  if t = "s" then do
+    let (s, ts) ← pH ts
+    pure (.str s, ts)
+  else if t = "r" then do
+    let (i, ts) ← pH ts
+    let (d, ts) ← pHO ts
+    let (x, ts) ← pH ts
+    pure (.ref i d x, ts)
+  else if t = "o" then do
+    let (x, ts) ← pH ts
+    pure (.other x, ts)
+  else none
+
+/-- `REC ::= k (H(key) DV)*k` -/
+def pRec : P Rec := fun ts => do
+  let (k, ts) ← pNat ts
+  pRep (fun ts => do
+    let (key, ts) ← pH ts
+    let (v, ts) ← pDVal ts
+    pure ((key, v), ts)) k ts
+
+/-- `LOC ::= k (H(key) H(text))*k` — the localisation callback as a finite map -/
+def pLoc : P (List (List Char × List Char)) := fun ts => do
+  let (k, ts) ← pNat ts
+  pRep (fun ts => do
+    let (key, ts) ← pH ts
+    let (v, ts) ← pH ts
+    pure ((key, v), ts)) k ts
+
+def locOf (m : List (List Char × List Char)) : Loc := fun k =>
+  match m.find? (fun e => e.1 = k) with
+  | some e => some e.2
+  | none => none
+
+def reply : Res (List Char) → String
+  | .ok s => "ok " ++ H s
+  | r => r.tag
+
+/-- requests `C20 <cmd> ...` (tokens after the property id):
+`dis REC LOC DEF` = `dict_to_dis`, `disd REC` = `HaystackDict::dis`, `mac H(pattern) REC LOC` = `dis_macro` -/
+def handle (ts : List String) : String :=
+  match ts with
+  | "dis" :: ts =>
+    match pRec ts with
+    | none => "bad-request"
+    | some (r, ts) =>
+      match pLoc ts with
+      | none => "bad-request"
+      | some (l, ts) =>
+        match pHO ts with
+        | none => "bad-request"
+        | some (d, _) => reply (dictToDis r (locOf l) d)
+  | "disd" :: ts =>
+    match pRec ts with
+    | none => "bad-request"
+    | some (r, _) => reply (Dis.dis r)
+  | "mac" :: ts =>
+    match pH ts with
+    | none => "bad-request"
+    | some (p, ts) =>
+      match pRec ts with
+      | none => "bad-request"
+      | some (r, ts) =>
+        match pLoc ts with
+        | none => "bad-request"
+        | some (l, _) => reply (disMacro r (locOf l) p)
+  | _ => "bad-request"
 
 end Hs.Drv.C20
